@@ -16,7 +16,7 @@ import HeartwoodModel.Driver.Util
   needed to predict the outcome class). Ops: `r<peer>:<msg>` receive, `x<peer>` the connection to the peer was
   dropped, `c<peer>` inbound connection. Messages: `n,<announcer>,<sig>,<ts>,<seed>` node announcement,
   `i,<announcer>,<sig>,<ts>,<rid;…|->` inventory, `f,<announcer>,<sig>,<ts>,<rid>,<remote@at;…|->` refs,
-  `s,<since>,<until>` subscribe, `p,<ponglen>` ping, `q,<len>` pong, `o` info. Announcer 9 is the node itself.
+  `s,<since>,<until>[,<filter KiB 1|4|16>,<fill>]` subscribe, `p,<ponglen>` ping, `q,<len>` pong, `o` info. Announcer 9 is the node itself.
   Output: one char per op — `o` handled without error, `m` peer disconnected for misbehaviour, `t` peer
   disconnected for an invalid timestamp, `P` panic (run stops), `-` for `x`/`c` ops; for a ping the char is
   followed by `+` if a pong is sent.
@@ -152,6 +152,11 @@ def parseMsg (s : String) : Option Msg :=
   | ["s", since, until_] => do
     let since ← ts? since; let until_ ← ts? until_
     some (.subscribe since until_)
+  -- `s,<since>,<until>,<filter KiB 1|4|16>,<fill 0..255 | r<seed>>`: the peer's bloom filter (size and contents
+  -- are not part of the model: no assertion site depends on them)
+  | ["s", since, until_, kib, _fill] => do
+    let since ← ts? since; let until_ ← ts? until_; let k ← nat? kib
+    if k = 1 ∨ k = 4 ∨ k = 16 then some (.subscribe since until_) else none
   | ["p", n] => do let n ← nat? n; if n < 65536 then some (.ping n) else none
   | ["q", n] => do let n ← nat? n; if n < 65536 then some (.pong n) else none
   | ["o"] => some .info
